@@ -120,8 +120,9 @@ def forward_filtering_backward_sampling(
         obs = x
 
         def t_branch(prev, obs):
+            # alpha_t(i) = sum_j alpha_{t-1}(j) P(i | j), with transition_n[j, i] = log P(i | j)
             alpha = jax.scipy.special.logsumexp(
-                prev + transition_n,
+                prev + transition_n.T,
                 axis=-1,
             )
             alpha = obs_n + alpha.reshape(-1, 1)
